@@ -161,6 +161,12 @@ void profile_storm(RunCtx& ctx)
             else
                 c.backend = b < 55 ? B_DOC : (b < 70 ? B_BUILDER : (b < 88 ? B_PRETTY : B_TIGA));
         }
+        // The LSC block syntaxes are only ever fed by the XML reader to a builder that has an LSC template and an
+        // instance line open; that builder state is a precondition of the call, not part of the byte string, so
+        // these parts are exercised with the stateless back ends only (DESIGN.md, C01).
+        if (c.entry == E_PART && (c.backend == B_DOC || c.backend == B_BUILDER) &&
+            (c.part == UTAP::S_INSTANCE_LINE || c.part == UTAP::S_MESSAGE || c.part == UTAP::S_UPDATE || c.part == UTAP::S_CONDITION))
+            c.backend = rng.chance(0.5) ? B_PRETTY : B_TIGA;
         c.sched = ctx.draw_sched(rng, envfault && rng.chance(0.5));
         if (envfault && rng.chance(0.4))
             c.alloc_fail_at = 1 + (int64_t)rng.below(1u << rng.range(0, 14));
